@@ -39,7 +39,8 @@ type childSpec struct {
 	Env      []string        `json:"env"`   // extra environment of the child process (e.g. DISPLAY=:77)
 	// CfgLayout: how the configuration file is reached ("" = <world>/fan2go.yaml; "symlink" = through a symbolic
 	// link; "dotdot" = <world>/etc/current/../fan2go.yaml where current is a symbolic link to releases/v1, so
-	// that the file loaded is etc/releases/fan2go.yaml while a root-controlled decoy sits at etc/fan2go.yaml)
+	// that the file loaded is etc/releases/fan2go.yaml while a root-controlled decoy sits at etc/fan2go.yaml;
+	// "relative" = -c ./fan2go.yaml with the world as working directory; "cwd" = no -c, found by the search path)
 	CfgLayout string `json:"cfgLayout"`
 	// CfgAttr: owner, group and mode given to the configuration file that is actually loaded (mode 0 = leave)
 	CfgUID, CfgGID int
@@ -126,6 +127,13 @@ func TestDaemonChild(t *testing.T) {
 			loaded = filepath.Join(etc, "releases", "fan2go.yaml")
 			_ = os.WriteFile(filepath.Join(etc, "fan2go.yaml"), []byte(doc), 0644) // the root-controlled decoy
 			cfgPath = etc + "/current/../fan2go.yaml"                              // not filepath.Join: it would collapse the ".." lexically
+		case "relative", "cwd":
+			// the file is named relative to the working directory ("-c ./fan2go.yaml"), or found there by the
+			// search path (no -c at all)
+			if err := os.Chdir(w.Dir); err != nil {
+				write(journalLine{Note: "harness: " + err.Error()})
+				os.Exit(12)
+			}
 		}
 		if err := os.WriteFile(loaded, []byte(doc), 0644); err == nil && spec.CfgMode != 0 {
 			_ = os.Chown(loaded, spec.CfgUID, spec.CfgGID)
@@ -208,6 +216,12 @@ func TestDaemonChild(t *testing.T) {
 			}
 		}
 		args := append([]string{"fan2go", "-c", cfgPath, "--no-style", "--no-color"}, spec.Args...)
+		switch spec.CfgLayout {
+		case "relative":
+			args[2] = "./fan2go.yaml"
+		case "cwd":
+			args = append([]string{"fan2go", "--no-style", "--no-color"}, spec.Args...)
+		}
 		k.Go("program", func() {
 			os.Args = args
 			cmd.Execute()
